@@ -95,6 +95,26 @@ impl Spec {
     }
 }
 
+/// stored record size of each event as the writer will produce it (bincode body, zstd when enabled and
+/// the body is at least 128 bytes), given the sequences / versions the reference model assigns
+pub fn stored_sizes(tx: &GenTx, txid: Uuid, spec: &Spec, nb: u16, compression: bool) -> Vec<usize> {
+    use sierradb::bucket::segment::{LongBytes, RawEvent, RecordHeader, ShortString};
+    let mut s2 = spec.clone();
+    let assigned: Option<Vec<(u64, u64)>> = match s2.append(tx, nb, usize::MAX / 4) {
+        Ok(_) => Some(s2.txs.last().unwrap().iter().map(|id| { let e = &s2.by_id[id]; (e.seq, e.version) }).collect()),
+        Err(_) => None,
+    };
+    tx.events.iter().enumerate().map(|(i, e)| {
+        let est = EVENT_HEADER_SIZE + e.stream.len() + e.name.len() + e.meta.len() + e.payload.len();
+        let (Some(a), Ok(header)) = (&assigned, RecordHeader::new_event(e.ts, txid)) else { return est };
+        let raw = RawEvent { header, event_id: e.id.into_bytes(), partition_key: tx.pkey.into_bytes(), partition_id: tx.pid,
+            partition_sequence: a[i].0, stream_version: a[i].1, stream_id: StreamId::new(e.stream.clone()).unwrap(),
+            event_name: ShortString(e.name.clone()), metadata: LongBytes(e.meta.clone()), payload: LongBytes(e.payload.clone()) };
+        let body = bincode::encode_to_vec(&raw, bincode::config::legacy()).unwrap();
+        if compression && body.len() >= 128 { 8 + 1 + 4 + zstd::bulk::compress(&body, 3).unwrap().len() } else { 8 + 1 + body.len() }
+    }).collect()
+}
+
 pub fn err_class(e: &WriteError) -> String {
     match e {
         WriteError::WrongExpectedVersion { .. } => "WrongVersion".into(),
@@ -211,10 +231,11 @@ impl World {
         Transaction::new(tx.pkey, tx.pid, evs).unwrap().expected_partition_sequence(tx.exp_seq)
     }
 
-    pub fn op_of_tx(&self, tx: &GenTx) -> String {
+    pub fn op_of_tx(&self, tx: &GenTx, txid: Uuid) -> String {
+        let stored = stored_sizes(tx, txid, &self.spec, self.cfg.nb, self.cfg.compression);
         let mut s = format!("st append b={} pk={} pid={} exp={} n={}", tx.pid % self.cfg.nb, tx.pk_idx, tx.pid, show_exp(tx.exp_seq), tx.events.len());
-        for e in &tx.events {
-            s.push_str(&format!(" | {} {} {} {} {} {} {} {}", ev_label(e.idx), e.stream, show_exp(e.exp), (e.ts >> 63 == 0) as u8, e.stream.len(), e.name.len(), e.meta.len(), e.payload.len()));
+        for (i, e) in tx.events.iter().enumerate() {
+            s.push_str(&format!(" | {} {} {} {} {} {} {} {} {}", ev_label(e.idx), e.stream, show_exp(e.exp), (e.ts >> 63 == 0) as u8, e.stream.len(), e.name.len(), e.meta.len(), e.payload.len(), stored[i]));
         }
         s
     }
